@@ -538,12 +538,15 @@ func (m *Machine) OpChangePassFault(t *rapid.T) {
 	m.N["passphrase-change-write-fault"]++
 	if private {
 		var uerr error
-		m.View(func(ns walletdb.ReadBucket) { uerr = m.Mgr.Unlock(ns, append([]byte(nil), newPass...)) })
-		if uerr == nil {
-			m.Violation("after a failed private passphrase change the attempted passphrase %q unlocks", newPass)
+		if !bytes.Equal(newPass, m.PrivPass) {
+			// (the attempted passphrase can coincide with the current one)
+			m.View(func(ns walletdb.ReadBucket) { uerr = m.Mgr.Unlock(ns, append([]byte(nil), newPass...)) })
+			if uerr == nil {
+				m.Violation("after a failed private passphrase change the attempted passphrase %q unlocks", newPass)
+			}
+			m.Locked = true
+			m.afterLockTransition("failed unlock (attempted passphrase of a failed change)")
 		}
-		m.Locked = true
-		m.afterLockTransition("failed unlock (attempted passphrase of a failed change)")
 		m.View(func(ns walletdb.ReadBucket) { uerr = m.Mgr.Unlock(ns, append([]byte(nil), m.PrivPass...)) })
 		m.Case.Logf("  unlock with the current private passphrase -> %v", uerr)
 		if uerr != nil && !(m.KnownF7 != nil && m.KnownF7(uerr)) {
